@@ -29,10 +29,10 @@ def _mentions_seq(e, derived) -> bool:
     return False
 
 
-def _derived_names(fn) -> set:
+def _derived_names(fn, seed=()) -> set:
     """locals bound (directly, by unpacking, by comprehension or loop over) to values taken from a reactant / product list, or from
-    the dependency lists of an ODE modifier (`expr["reactants"]`)"""
-    derived = set()
+    the dependency lists of an ODE modifier (`expr["reactants"]`); `seed`: parameters that receive such a value at a call site"""
+    derived = set(seed)
     changed = True
 
     def src(e):
@@ -68,9 +68,9 @@ def _is_elementish(key, var_names, derived) -> bool:
     return bool(names & (var_names | derived))
 
 
-def find(fn, file):
+def find(fn, file, seed=()):
     """-> [(lineno, kind, source text)] of multiplicity-losing containers in one function"""
-    derived = _derived_names(fn)
+    derived = _derived_names(fn, seed)
     out = []
     for n in ast.walk(fn):
         if isinstance(n, (ast.DictComp, ast.SetComp)):
@@ -125,10 +125,39 @@ def rule(ctx, rule_id, which, what):
     fns = []
     for w in which:
         fns += scoped_functions(pkg, w)
+    # helpers that are HANDED a reactant / product list (`self._net(rspecidx, pspecidx)`, `_pairs(reac.reactants)`): the parameter
+    # that receives it is such a list inside the helper -- propagated along the calls between the scanned functions (fixpoint)
+    by_name = {}
+    for file, name, fn in fns:
+        by_name.setdefault(name.split(".")[-1], []).append((file, name, fn))
+    seeds = {id(fn): set() for _, _, fn in fns}
+    for _ in range(4):
+        grew = False
+        for file, name, fn in fns:
+            derived = _derived_names(fn, seeds[id(fn)])
+            for c in ast.walk(fn):
+                if not isinstance(c, ast.Call):
+                    continue
+                cn = c.func.attr if isinstance(c.func, ast.Attribute) and isinstance(c.func.value, ast.Name) and c.func.value.id in ("self", "cls") else \
+                    c.func.id if isinstance(c.func, ast.Name) else None
+                for cfile, cname, callee in by_name.get(cn, []) if cn else []:
+                    if cfile != file or callee is fn:
+                        continue
+                    params = [a.arg for a in callee.args.posonlyargs + callee.args.args]
+                    decs = {ast.unparse(d) for d in callee.decorator_list}
+                    if isinstance(c.func, ast.Attribute) and "staticmethod" not in decs and params:
+                        params = params[1:]
+                    hit = {p_ for p_, a in zip(params, c.args) if not isinstance(a, ast.Starred) and _mentions_seq(a, derived)}
+                    hit |= {k.arg for k in c.keywords if k.arg in params and _mentions_seq(k.value, derived)}
+                    if hit - seeds[id(callee)]:
+                        seeds[id(callee)] |= hit
+                        grew = True
+        if not grew:
+            break
     n = 0
     for file, name, fn in fns:
         n += 1
-        for line, kind, src in find(fn, file):
+        for line, kind, src in find(fn, file, seeds[id(fn)]):
             ctx.bad(rule_id, f"{name}:multiplicity:{kind}", (file, line),
                     f"{kind} built from a reactant / product / dependency list (`{src}`): equal species are identified, so a species that occurs twice "
                     f"(H + H, GH + GH) contributes once to {what}",
